@@ -168,6 +168,12 @@ def corpus():
                 [[None, None, None, None, None], [None, None, 7.0, 8.0, 9.0], [None, 10.0, 11.0, 12.5, 13.0], [None, 2.0, 3.0, 4.0, 5.5],
                  [None, 6.0, 7.0, 1.0, 2.5]], ["affine", [2.0, 1.0, 0.5, -3.0]], "linear", False, {}, "corpus-pg-nan-L-margin"),
           mk_mask_large([0.0, 40.0, 55.0, 30.0, -10.0, 20.0], [0.0, -5.0, 30.0, 60.0, 35.0, 20.0], (-12.0, 57.0, -7.0, 62.0), (530, 620)),
+          mk_pg([0.0, 1.0, 2.0, 3.0, 4.0], [10.0, 20.0, 30.0, 40.0],
+                [[None, None, 3.0, 4.0, 5.0], [None, 6.0, 7.0, 8.0, 9.0], [9.0, 10.0, 11.0, 12.5, 13.0], [1.0, 2.0, 3.0, 4.0, 5.5]],
+                ["affine", [2.0, 1.0, 0.5, -3.0]], "nearest-object", False, {}, "corpus-pg-cut-corner-gridder-object"),
+          mk_pg([0.0, 1.0, 2.0, 3.0, 4.0], [10.0, 20.0, 30.0, 40.0],
+                [[None, None, 3.0, 4.0, 5.0], [None, 6.0, 7.0, 8.0, 9.0], [9.0, 10.0, 11.0, 12.5, 13.0], [1.0, 2.0, 3.0, None, None]],
+                ["shear", [0.5]], "linear-object", False, {}, "corpus-pg-cut-corner-gridder-object"),
           # a requested region with west > east: refused (ValueError), whatever the data region looks like
           mk_pg([0.0, 1.0, 2.0, 3.0], [10.0, 20.0, 30.0], [[1.0, 2.0, 3.0, 4.0], [5.0, 6.0, 7.0, 8.0], [9.0, 10.0, 11.0, 12.5]],
                 ["affine", [2.0, 1.0, 0.5, -3.0]], "linear", False, {"region": [6.0, 2.0, 3.0, 11.0]}, "corpus-pg-bad-region"),
@@ -222,6 +228,14 @@ def generate(rng, tier):
             if rng.random() < 0.3:
                 ge = sorted(set(offset + rng.randint(-14, 14) / 2.0 * scale for _ in range(rng.randint(1, 5))))
                 gn = sorted(set(-offset + rng.randint(-14, 14) / 2.0 * scale for _ in range(rng.randint(1, 5))))
+                v_ = rng.random()
+                if v_ < 0.2:
+                    gn = gn[::-1]          # a north-up raster: northing decreases with the row index
+                elif v_ < 0.3:
+                    ge = ge[::-1]
+                elif v_ < 0.4:
+                    rng.shuffle(ge)
+                    rng.shuffle(gn)
                 cs.append(mk_mask(es, ns, None, None, None, proj, (ge, gn), "mask-grid"))
             else:
                 cs.append(mk_mask(es, ns, qe, qn, shape2d, proj, None, "mask-lattice" if lattice else "mask-cloud"))
@@ -271,6 +285,8 @@ def generate(rng, tier):
             if rng.random() < 0.15 and "shape" not in kw:
                 kw["spacing"] = rng.choice([0.5, 1.0, (2.0, 0.5)])
             meth = rng.choice(["linear", "nearest", "cubic"]) if nanmargin >= 0.24 else rng.choice(["nearest", "nearest", "linear"])
+            if meth != "cubic" and rng.random() < 0.3:
+                meth += "-object"
             cs.append(mk_pg(ge, gn, vals, proj, meth, rng.random() < 0.5, kw, "project-grid-" + proj[0] + ("-nanmargin" if nanmargin < 0.24 else "")))
     return cs
 
@@ -328,7 +344,8 @@ def impl(case):
             f = PROJS[proj[0]](proj[1])
             arr = np.array([[np.nan if v is None else v for v in row] for row in vals])
             da = xr.DataArray(arr, coords={"northing": np.array(gn), "easting": np.array(ge)}, dims=("northing", "easting"), name=_pg_name(ge, gn))
-            out = vd.project_grid(da, f, method=method, antialias=antialias, **kw)
+            m_arg = {"nearest-object": vd.KNeighbors(), "linear-object": vd.Linear()}.get(method, method)      # a gridder object instead of its name
+            out = vd.project_grid(da, f, method=m_arg, antialias=antialias, **kw)
             return {"name": out.name, "dims": list(out.dims), "east": [float(v) for v in out.coords[out.dims[1]].values],
                     "north": [float(v) for v in out.coords[out.dims[0]].values],
                     "values": [[None if v != v else float(v) for v in row] for row in out.values.tolist()]}
@@ -433,6 +450,7 @@ def oracle(case, io):
                 return f"query {k} ({a[2][k]}, {a[3][k]}): mask is {got} but the point is {'inside' if inside else 'outside'} the convex hull of the data"
         return None
     ge, gn, vals, proj, method, antialias, kw = a
+    method = method.replace("-object", "")      # (a gridder object of that kind: the same result as its name)
     r = io[1]
     if r["name"] != (_pg_name(ge, gn) or "scalars") or r["dims"] != ["northing", "easting"]:
         return f"project_grid lost the DataArray's name / dims (a nameless grid comes back as 'scalars'): {r['name']!r} {r['dims']}"
